@@ -775,16 +775,30 @@ class Executor:
                        cl.props)
 
   # -- loops ------------------------------------------------------------------------
+  def loop_spec(self, s, n):
+    """The contract's spec for this loop: matched by the loop's source shape
+    (iterable text [+ a body fragment]) where given, else by ordinal."""
+    if self.depth != 0:
+      return None
+    for key, spec in self.contract.loops.items():
+      if isinstance(key, tuple):
+        it_text, frag = key
+        src = ast.unparse(s.iter) if isinstance(s, ast.For) else ast.unparse(s.test)
+        if src == it_text and (frag is None or
+                               any(frag in ast.unparse(b) for b in s.body)):
+          return spec
+    return self.contract.loops.get(n)
+
   def st_While(self, s):
     n = self.ordinal('loop', s)
-    spec = self.contract.loops.get(n) if self.depth == 0 else None
+    spec = self.loop_spec(s, n)
     if spec is None:
       self.oos(f'while loop #{n} has no invariant', s)
     self.cut_loop(s, n, spec, None)
 
   def st_For(self, s):
     n = self.ordinal('loop', s) if self.depth == 0 else None
-    spec = self.contract.loops.get(n) if self.depth == 0 else None
+    spec = self.loop_spec(s, n)
     it = self.ev_iter(s.iter)
     if isinstance(it, list):          # concrete sequence: unroll
       self.unrolled_for(s, it)
@@ -871,6 +885,7 @@ class Executor:
       names |= set(spec.havoc)
     if spec.ghost:
       names |= set('ghost_' + g for g in spec.ghost)
+    names |= self.callee_modifies(s.body + list(getattr(s, 'orelse', [])))
     if spec.keep:
       names -= set(spec.keep)
     fr = self.frame
@@ -927,6 +942,79 @@ class Executor:
       if spec.after:
         spec.after(self, self.loop_ctx(it))
       self.exec_block(s.orelse)
+
+  CONTAINER_METHODS = extract.NON_MUTATING_METHODS | {
+      'append', 'extend', 'pop', 'update', 'clear', 'setdefault', 'add', 'remove',
+      'insert', 'discard', 'popitem', 'sort', 'reverse', 'popleft', 'appendleft'}
+
+  def callee_modifies(self, stmts, depth=0):
+    """State fields that calls made (syntactically) inside `stmts` may modify:
+    the union of the `modifies` of every contract a call could resolve to;
+    opaque calls contribute the contract's opaque policy; inlinable helpers
+    are scanned recursively; anything unresolved counts as 'everything this
+    function may modify'."""
+    c = self.contract
+    out = set()
+    fname = self.frame.fname
+    everything = set(c.modifies)
+    for st in stmts:
+      for n in ast.walk(st):
+        if isinstance(n, ast.With):
+          for it in n.items:
+            ce = it.context_expr
+            if isinstance(ce, ast.Name) and ce.id in self.world.LOCKS:
+              out.add(self.world.LOCKS[ce.id])
+        if not isinstance(n, ast.Call):
+          continue
+        f = n.func
+        cands = []
+        if isinstance(f, ast.Name):
+          q = f'{fname}::{f.id}'
+          if q in C.REGISTRY:
+            cands.append(C.REGISTRY[q])
+          elif q in self.world.INLINE and depth < 3:
+            fd = self.repo.find(q)
+            if fd is not None:
+              out |= self.callee_modifies(fd.body, depth + 1)
+              gl = [g for x in ast.walk(fd) if isinstance(x, ast.Global) for g in x.names]
+              out |= set(g for g in gl if g in self.G)
+            continue
+          elif f.id in self.world.BUILTINS or f.id in self.world.RECORD_CLASSES or \
+              f.id in sym._EXC_PARENT or f.id in sym._EXC_ALIASES:
+            continue
+          else:
+            # a local / closure variable holding a callable: opaque policy
+            if c.opaque_havoc is not None:
+              out |= set(c.opaque_havoc)
+            elif not c.opaque_pure:
+              out |= everything
+            continue
+        elif isinstance(f, ast.Attribute):
+          if f.attr in self.CONTAINER_METHODS:
+            continue
+          dotted = ast.unparse(f)
+          if dotted in self.world.EXTERNALS:
+            cands.append(C.REGISTRY[self.world.EXTERNALS[dotted]])
+          else:
+            for q, cc in C.REGISTRY.items():
+              if q.endswith('.' + f.attr) or q.endswith('::' + f.attr):
+                cands.append(cc)
+            if f.attr in self.world.VAL_METHOD_CONTRACTS:
+              cands.append(C.REGISTRY[self.world.VAL_METHOD_CONTRACTS[f.attr]])
+          if not cands:
+            if isinstance(f.value, ast.Name) and f.value.id == 'logging':
+              continue
+            out |= everything
+            continue
+        else:
+          out |= everything
+          continue
+        for cc in cands:
+          out |= set(cc.modifies)
+          for case in cc.raises:
+            if case.modifies:
+              out |= set(case.modifies)
+    return set(x for x in out if x in self.G)
 
   def loop_ctx(self, it):
     ctx = self.ctx()
